@@ -19,7 +19,8 @@ from ..gen import rules as G
 
 
 def canon_val(v):
-    return f'{type(v).__name__}:{v!r}'
+    from .. import exprs
+    return exprs.canon_field(v)
 
 
 def txn_for_engine(txn):
@@ -483,6 +484,7 @@ def run(ctx, prop):
             mode = 'most_specific' if prop == 'C09' else ('first_match' if prop == 'C01' else r.choice(['first_match', 'most_specific']))
             items.append((f, txn, mode))
     cases, impls, metas, prop_fail, corr_fail = [], [], [], list(corpus_fail), []
+    full_cases = []
     raised = 0
     oracle = ORACLES[prop]
     for f, txn, mode in items:
@@ -497,6 +499,8 @@ def run(ctx, prop):
             raised += 1
             continue
         cases.append(case); impls.append(impl); metas.append((f, txn, mode))
+        from .. import exprs as X
+        full_cases.append(X.engine_case(eng, t2, mode))
         try:
             for pf in oracle(dict(f, transforms=[]), t2, r):
                 pf['file'] = f; pf['mode'] = pf.get('mode', mode)
@@ -556,6 +560,23 @@ def run(ctx, prop):
                 f, txn, mode = metas[i]
                 corr_fail.append({'stream': 'engine', 'differs_in': diffs, 'file': f, 'txn': jtxn(txn), 'mode': mode,
                                   'model': {k: mo.get(k) for k in diffs}, 'implementation': {k: im[k] for k in diffs}})
+        # full stack: the same cases with the per-rule evaluation computed by the evaluator MODEL
+        from .. import exprs as X
+        fm = X.model_eval(full_cases, op='engine')
+        full_compared = 0
+        for i, (mo, im) in enumerate(zip(fm, impls)):
+            if mo.get('err') == 'unmodelled':
+                continue
+            full_compared += 1
+            im2 = {k: v for k, v in im.items() if k != 'keys'}
+            diffs = [k for k, v in im2.items() if mo.get(k) != v]
+            if diffs:
+                f, txn, mode = metas[i]
+                corr_fail.append({'stream': 'full-stack', 'differs_in': diffs, 'file': f, 'txn': jtxn(txn), 'mode': mode,
+                                  'model': {k: mo.get(k) for k in diffs} if 'err' not in mo else mo,
+                                  'implementation': {k: im2[k] for k in diffs}})
+        ctx.notes['cases_on_full_evaluator_model'] = full_compared
+        ctx.notes['cases_on_per_rule_bits'] = len(cases)
         wm = d.batch(wrapper_cases)
         for mo, im, ca in zip(wm, wrapper_impl, wrapper_cases):
             if ca['op'] == 'match':
@@ -575,6 +596,9 @@ def run(ctx, prop):
     ctx.obligation('correspondence:MerchantEngine.match-vs-Rules.matchEngine', 'correspondence',
                    not [c for c in corr_fail if c.get('stream') in ('engine', None)], cases=len(cases),
                    error=json.dumps(corr_fail[0], default=str)[:2000] if corr_fail else None)
+    ctx.obligation('correspondence:MerchantEngine.match-vs-Engine.matchTxn(full evaluator model)', 'correspondence',
+                   not [c for c in corr_fail if c.get('stream') == 'full-stack'], cases=ctx.notes.get('cases_on_full_evaluator_model', 0),
+                   error=next((json.dumps(c, default=str)[:2000] for c in corr_fail if c.get('stream') == 'full-stack'), None))
     if prop in ('C01', 'C02'):
         ctx.obligation('correspondence:normalize_merchant+apply_transforms+legacy-loop-vs-model', 'correspondence',
                        not [c for c in corr_fail if c.get('stream') in ('normalize_merchant', 'apply_transforms', 'legacy')],
